@@ -131,6 +131,29 @@ void hv_case(uint64_t index)
       hv_stat(sizes[k] >= len && sizes[k] < off + len ? "writes.file_holds_length_but_not_offset_plus_length" : sizes[k] >= off + len ? "writes.file_already_large_enough" : "writes.file_shorter_than_length", 1); } }
   void *whole; size_t whole_len; void *base = reserve(len, &whole, &whole_len);
   hv_desc("  length %zu offset %llu address %p\n", len, (unsigned long long)off, base);
+  /* cross-process adopter (1/3): a process forked BEFORE the write. Its heap holds nothing that write() allocates afterwards, so every
+   * pointer of the stored topology that does not point into the mapping dangles there, as it would in an unrelated process */
+  int xp = hv_chance(&R, 1, 3), xgo[2] = { -1, -1 }, xres[2] = { -1, -1 }; pid_t xpid = -1;
+  if (xp && pipe(xgo) == 0 && pipe(xres) == 0) {
+    fflush(NULL);
+    xpid = fork();
+    if (xpid == 0) {
+      close(xgo[1]); close(xres[0]); char go = 0;
+      if (read(xgo[0], &go, 1) != 1 || go != 'g') _exit(0);
+      hv_ctxkey("cross_process_adopt");
+      hwloc_topology_t X = NULL; uint64_t out[3] = { 0, 0, 0 };
+      if (hwloc_shmem_topology_adopt(&X, fd, off, base, len, 0) != 0 || !X) { out[0] = 1; out[1] = (uint64_t)errno; }
+      else { struct hv_str cx, xx; hv_str_init(&cx); hv_str_init(&xx); canon_dump(X, CANON_EQUIV, &cx); xml_of(X, &xx);
+        out[1] = hv_hash_bytes(cx.s, cx.len, 5); out[2] = hv_hash_bytes(xx.s, xx.len, 6);
+        /* names reachable only through pointers: distances, memory attributes */
+        unsigned nr = 0; hwloc_distances_get(X, &nr, NULL, 0, 0); struct hwloc_distances_s **dd = calloc(nr + 1, sizeof *dd); unsigned n2 = nr; hwloc_distances_get(X, &n2, dd, 0, 0);
+        for (unsigned i = 0; i < n2 && i < nr; i++) { const char *nm = hwloc_distances_get_name(X, dd[i]); if (nm) out[2] = hv_hash_str(nm, out[2]); hwloc_distances_release(X, dd[i]); }
+        free(dd); hv_str_free(&cx); hv_str_free(&xx); hwloc_topology_destroy(X); }
+      if (write(xres[1], out, sizeof out) < 0) {}
+      _exit(0);
+    }
+    close(xgo[0]); close(xres[1]);
+  } else xp = 0;
   hv_ctxkey("write");
   errno = 0;
   if (hwloc_shmem_topology_write(T, fd, off, base, len, 1UL << hv_below(&R, 6)) != -1 || errno != EINVAL) hv_viol("write.flags", "non-zero flags accepted by write");
@@ -173,6 +196,20 @@ void hv_case(uint64_t index)
   hwloc_topology_t A = NULL; errno = 0;
   if (hwloc_shmem_topology_adopt(&A, fd, off, base, len, 0) != 0 || !A) { hv_viol("adopt.failed", "adopt with the arguments of write failed, errno %d (%s)", errno, strerror(errno)); goto out; }
   hv_stat("adopts", 1);
+  if (xp && xpid > 0) {
+    uint64_t got[3] = { 0, 0, 0 }; int st = 0; char go = 'g';
+    if (write(xgo[1], &go, 1) < 0) {}
+    ssize_t rn = read(xres[0], got, sizeof got); waitpid(xpid, &st, 0); xpid = -1; close(xgo[1]); close(xres[0]); xgo[1] = xres[0] = -1;
+    hv_stat("adopts.cross_process", 1);
+    if (rn != (ssize_t)sizeof got || !WIFEXITED(st) || WEXITSTATUS(st)) hv_viol("adopt.cross_process.crashed", "a process forked before write() died while adopting and reading the stored topology (wait status %#x, %s)", st, WIFSIGNALED(st) ? strsignal(WTERMSIG(st)) : "sanitizer report or abort");
+    else if (got[0]) hv_viol("adopt.cross_process.failed", "adopt in a process forked before write() failed with errno %llu", (unsigned long long)got[1]);
+    else { struct hv_str cx, xx; hv_str_init(&cx); hv_str_init(&xx); canon_dump(A, CANON_EQUIV, &cx); xml_of(A, &xx);
+      uint64_t h1 = hv_hash_bytes(cx.s, cx.len, 5), h2 = hv_hash_bytes(xx.s, xx.len, 6);
+      unsigned nr = 0; hwloc_distances_get(A, &nr, NULL, 0, 0); struct hwloc_distances_s **dd = calloc(nr + 1, sizeof *dd); unsigned n2 = nr; hwloc_distances_get(A, &n2, dd, 0, 0);
+      for (unsigned i = 0; i < n2 && i < nr; i++) { const char *nm = hwloc_distances_get_name(A, dd[i]); if (nm) h2 = hv_hash_str(nm, h2); hwloc_distances_release(A, dd[i]); }
+      free(dd); hv_str_free(&cx); hv_str_free(&xx);
+      if (h1 != got[1] || h2 != got[2]) hv_viol("adopt.cross_process.differs", "the topology adopted by a process forked before write() differs from the one adopted by the writer (%s)", h1 != got[1] ? "canonical dump" : "XML export or distances names"); }
+  }
   { hwloc_topology_t X = NULL; errno = 0; hv_ctxkey("adopt_busy");
     if (hwloc_shmem_topology_adopt(&X, fd, off, base, len, 0) != -1 || errno != EBUSY) hv_viol("adopt.busy", "adopt over an occupied address range returned %s errno %d, expected EBUSY", X ? "a topology" : "-1", errno); }
   hv_ctxkey("adopted:wellformed");
@@ -242,6 +279,8 @@ void hv_case(uint64_t index)
   hv_str_free(&acanon); hv_str_free(&axml);
   if (!hv_viol_count() && (hx_popcount(feat & (HXF_DISTANCES | HXF_MEMATTR_VALUES | HXF_CPUKINDS | HXF_INFOS | HXF_SPECIAL_OBJS)) >= 2 || off)) { hv_stat("nontrivial_shares", 1); hv_distinct(1, hv_hash_u64(feat, hv_hash_u64(off, tv_shape_hash(T)))); }
 out:
+  if (xpid > 0) { char no = 'n'; if (xgo[1] >= 0 && write(xgo[1], &no, 1) < 0) {} int st; waitpid(xpid, &st, 0); }
+  if (xgo[1] >= 0) close(xgo[1]); if (xres[0] >= 0) close(xres[0]);
   hv_ctxkey("cleanup");
   munmap(whole, whole_len);
   close(fd);
